@@ -353,7 +353,7 @@ static struct fetch *create_fetch(const struct peer *p, const cJSON *request, co
 
 	struct fetch *f = alloc_fetch(p, id, number_of_matchers, request, response);
 	if (unlikely(f == NULL)) {
-		*response = create_error_response_from_request(p, request, INTERNAL_ERROR, "reason", "not enough memory to allocate fetch");
+		/* alloc_fetch() has created the error response already. */
 		return NULL;
 	}
 
@@ -793,6 +793,10 @@ cJSON *get_elements(const cJSON *request, const struct peer *request_peer)
 	}
 
 	cJSON *states = cJSON_CreateArray();
+	if (unlikely(states == NULL)) {
+		response = create_error_response_from_request(request_peer, request, INTERNAL_ERROR, "reason", "could not allocate memory for states array");
+		goto out;
+	}
 
 	struct list_head *item;
 	struct list_head *tmp;
